@@ -25,6 +25,7 @@ type Expr struct {
 	Val    string   `json:"val,omitempty"`    // comparison value (tokens joined by one blank) or TRUE/FALSE
 	Strict bool     `json:"strict,omitempty"` // value(...) form
 	Inl    []Inline `json:"inl,omitempty"`    // auto: inline text / moves() arguments (@inlN tokens)
+	RawVal string   `json:"rawval,omitempty"` // emitter-only mode: the comparison value exactly as the parser stored it
 }
 
 // Arm is one if / elif arm.
@@ -152,6 +153,13 @@ func (fl *flattener) newE(n FNode) int {
 	return len(fl.f.E)
 }
 
+func rawOr(a, b string) string {
+	if a != "" {
+		return a
+	}
+	return b
+}
+
 func strs(a []string) []string {
 	if a == nil {
 		return []string{}
@@ -164,7 +172,7 @@ func (fl *flattener) expr(e *Expr, par, dir int) int {
 	case "leaf":
 		return fl.newE(FNode{"k": "leaf", "par": par, "dir": dir, "typ": e.Typ, "opnd": e.Opnd,
 			"toks": strs(e.Toks), "form": e.Form, "op": e.Op, "val": e.Val, "strict": e.Strict,
-			"multi": strings.Contains(e.Val, " ")})
+			"multi": strings.Contains(e.Val, " "), "opndtoks": strs(strings.Fields(e.Opnd)), "rawvaltoks": strs(strings.Fields(rawOr(e.RawVal, e.Val)))})
 	case "not":
 		id := fl.newE(FNode{"k": "not", "par": par, "dir": dir})
 		fl.f.E[id-1]["e"] = fl.expr(e.E, id, 1)
@@ -232,11 +240,12 @@ func (fl *flattener) stmt(s *Stmt, par int, script int) int {
 		fl.f.N[id-1]["cond"] = fl.expr(s.Cond, 0, 0)
 		return id
 	case "switch":
-		id := fl.newN(FNode{"k": "switch", "par": par, "nxt": 0, "v": s.V, "pre": strs(s.Pre)})
+		id := fl.newN(FNode{"k": "switch", "par": par, "nxt": 0, "v": s.V, "pre": strs(s.Pre), "vtoks": strs(strings.Fields(s.V))})
 		cases := []FNode{}
 		for i := range s.Cases {
 			b := fl.block(s.Cases[i].Body, id, script)
-			cases = append(cases, FNode{"isdef": s.Cases[i].IsDef, "val": s.Cases[i].Val, "body": b, "n": len(s.Cases[i].Body)})
+			cases = append(cases, FNode{"isdef": s.Cases[i].IsDef, "val": s.Cases[i].Val, "body": b, "n": len(s.Cases[i].Body),
+				"valtoks": strs(strings.Fields(s.Cases[i].Val))})
 		}
 		fl.f.N[id-1]["cases"] = cases
 		return id
